@@ -63,9 +63,10 @@ func (sc *Scenario) ExtraPhases() []*Phase2Spec {
 // InnerSpec: task Host, on its first attempt, runs an inner graph of N independent tasks under its
 // own SetMaxParallel(MaxPar), passing on the context it received.
 type InnerSpec struct {
-	Host   int `json:"host"`
-	N      int `json:"n"`
-	MaxPar int `json:"max_par"`
+	Host   int  `json:"host"`
+	N      int  `json:"n"`
+	MaxPar int  `json:"max_par"`
+	SameID bool `json:"same_id,omitempty"` // one task of the inner graph is another Task object carrying the ID of the hosting task
 }
 
 type TaskSpec struct {
@@ -82,6 +83,9 @@ type AttemptSpec struct {
 	Big    bool   `json:"big,omitempty"`    // the first chunk carries 70 KiB of padding (more than any sane internal buffer limit)
 	Cancel string `json:"cancel,omitempty"` // "", entry, exit: call cancel() there
 	DFS    bool   `json:"dfs,omitempty"`    // the task asks its graph for DepthFirstSort() while it runs (a read-only call)
+	// SetMaxPar > 0: while it runs the task calls g.SetMaxParallel(n) on its own graph (no effect on the
+	// Run in progress, whose limit was fixed when it started)
+	SetMaxPar int `json:"set_max_parallel,omitempty"`
 	// SetRetries: while it runs the task lowers the retry budget of one of its dependents (which
 	// cannot have started yet) through g.TaskRetries(g.Task(id), r)
 	SetRetries *SetRetriesSpec `json:"set_retries,omitempty"`
@@ -144,6 +148,8 @@ func (c Call) String() string {
 		return "DepthFirstSort()"
 	case "validate":
 		return "Validate(nil)"
+	case "validatetm":
+		return "Validate(taskMapWithErrorsOfItsOwn)"
 	case "string":
 		return "String()"
 	}
@@ -514,7 +520,7 @@ func buildCalls(r *simrt.RNG, n int, deps [][]int, retries []int, mode string, m
 	}
 	// read-only API calls in the middle of the construction (state reused across calls must not go stale)
 	for k := r.Intn(3); k > 0 && r.Intn(2) == 0; k-- {
-		ins(Call{Op: []string{"dfs", "dfs", "validate", "string"}[r.Intn(4)]})
+		ins(Call{Op: []string{"dfs", "dfs", "validate", "string", "validatetm"}[r.Intn(5)]})
 	}
 	if mode != "wild" {
 		return calls
@@ -835,7 +841,7 @@ func Generate(seed uint64, o GenOpts) *Scenario {
 		sc.Again = true
 	}
 	if sc.Graphs == 1 && !huge && r.Intn(100) < 8 {
-		sc.Inner = &InnerSpec{Host: r.Intn(sc.N), N: 3 + r.Intn(4), MaxPar: 1 + r.Intn(2)}
+		sc.Inner = &InnerSpec{Host: r.Intn(sc.N), N: 3 + r.Intn(4), MaxPar: 1 + r.Intn(2), SameID: r.Intn(3) == 0}
 	}
 	// an extreme retry count (the task succeeds early, so it does not run for ever)
 	if r.Intn(60) == 0 && sc.Graphs == 1 && sc.Phase2 == nil {
@@ -912,6 +918,12 @@ func Generate(seed uint64, o GenOpts) *Scenario {
 					sc.Tasks[i].Attempts[k].DFS = true
 				}
 			}
+		}
+	}
+	if sc.Phase2 == nil && !sc.Again && !sc.Serial && sc.MaxPar > 0 && r.Intn(6) == 0 {
+		t := r.Intn(len(sc.Tasks))
+		for k := range sc.Tasks[t].Attempts {
+			sc.Tasks[t].Attempts[k].SetMaxPar = 1 + r.Intn(4)
 		}
 	}
 	if sc.Phase2 == nil && !sc.Again && r.Intn(10) == 0 {
